@@ -236,14 +236,17 @@ def mTopCofactor (t : MTbl) (u : Int) (level : Nat) : Except Err (List Int) :=
 
 /-- `tuple(itertools.starmap(self.ite, zip(gc, uc, vc)))` -/
 def mIteList (rec : Int → Int → Int → MM Int) : List Int → List Int → List Int → MM (List Int)
-  | g :: gs, u :: us, v :: vs => fun m =>
-    match rec g u v m with
-    | (.error e, m1) => (.error e, m1)
-    | (.ok w, m1) =>
-      match mIteList rec gs us vs m1 with
-      | (.error e, m2) => (.error e, m2)
-      | (.ok ws, m2) => (.ok (w :: ws), m2)
-  | _, _, _ => fun m => (.ok [], m)
+  | [], _, _ => fun m => (.ok [], m)
+  | g :: gs, us, vs => fun m =>
+    match us, vs with
+    | u :: us, v :: vs =>
+      match rec g u v m with
+      | (.error e, m1) => (.error e, m1)
+      | (.ok w, m1) =>
+        match mIteList rec gs us vs m1 with
+        | (.error e, m2) => (.error e, m2)
+        | (.ok ws, m2) => (.ok (w :: ws), m2)
+    | _, _ => (.ok [], m)
 
 /-- `ite(g, u, v)`; the fuel bounds the recursion depth (levels strictly increase) -/
 def mIteF : Nat → Int → Int → Int → MM Int
